@@ -97,7 +97,7 @@ PROPS = {
     "C20": {
         "n": {"quick": 150, "thorough": 1500},
         "race": True,
-        "cone": ["Queue", "QueueLemmas", "DecideLang", "GeneratedSkel", "QueueSrc", "QueueSrcOk"],
+        "cone": ["Queue", "QueueLemmas", "DecideLang", "GeneratedSkel", "QueueSrc", "QueueSrcOk", "ChanOpenSrc"],
         "diagnose": "From Scrapli Require Import QueueSrc.\nFrom Coq Require Import String List.\nOpen Scope string_scope.\nEval vm_compute in (map (fun n => (n, q_run n false)) (\"Queue.Enqueue\" :: \"Queue.Requeue\" :: \"Queue.Dequeue\" :: \"Queue.DequeueAll\" :: \"Queue.getDepth\" :: \"Queue.GetDepth\" :: nil)).\n",
         "rule": "all sequential histories over {enqueue, dequeue, dequeue-all, requeue, depth} up to length 5 (thorough: 7) plus random ones "
                 "to length 14, each run on util.Queue and on the Coq model (projected: consumer's net stream, chunks held, nil returns, "
